@@ -415,5 +415,49 @@ def prop_hier(case):
     return Obs(multi or openpin or chain or ign, sorted(labels), checks=sims * (len(po) + len(used_state)))
 
 
-PARTS = [Part('cells', prop_cells, enumerate=enum_cells, quick=(8, 0), thorough=(16, 0)),
+def enum_hub(tier):
+    for n in ([300, 1000] if tier == 'quick' else [200, 300, 700, 70000]):
+        yield dict(fanout=n)
+
+
+def prop_hub(case):
+    """one signal with hundreds / tens of thousands of readers: copy, pickle and fork elimination keep structure and function"""
+    from vk import bigcirc
+    from kyupy.logic_sim import LogicSim
+    sims = 4
+    mask = (1 << sims) - 1
+    va, vb = 0b0011, 0b0101
+    c, exp = bigcirc.hub(case['fanout'], va, vb, mask)
+    snap = canon_circuit(c)
+
+    def outputs(cc):
+        sim = LogicSim(cc, sims, m=2)
+        stim = np.zeros((len(cc.s_nodes), sims), dtype=np.uint8)
+        stim[0] = [3 * ((va >> l) & 1) for l in range(sims)]
+        stim[1] = [3 * ((vb >> l) & 1) for l in range(sims)]
+        sim.s[0] = pack_bp(stim)
+        sim.s_to_c(); sim.c_prop(); sim.c_to_s()
+        return unpack_bp(sim.s[1], sims)[2:]
+
+    want = np.array([[3 * ((e >> l) & 1) for l in range(sims)] for e in exp], dtype=np.uint8)
+    for what, make in (('copy()', lambda: c.copy()), ('pickle round trip', lambda: pickle.loads(pickle.dumps(c))),
+                       ('copy + eliminate_1to1_forks', lambda: c.copy())):
+        c2 = make()
+        if 'eliminate' in what:
+            c2.eliminate_1to1_forks()
+        elif canon_circuit(c2) != snap:
+            raise Violation(f'{what} of a circuit with a fork of {case["fanout"]} readers differs from the original')
+        if [n.name for n in c2.io_nodes] != [n.name for n in c.io_nodes]:
+            raise Violation(f'{what}: port list changed')
+        got = outputs(c2)
+        if not np.array_equal(got, want):
+            bad = int(np.argwhere(got != want)[0][0])
+            raise Violation(f'{what}: output o{bad} of the circuit with a fork of {case["fanout"]} readers no longer computes its function')
+    if canon_circuit(c) != snap:
+        raise Violation('copy/pickle modified the original')
+    return Obs(True, ['fanout>255' if case['fanout'] < 65536 else 'fanout>65535'], checks=3 * case['fanout'])
+
+
+PARTS = [Part('hub', prop_hub, enumerate=enum_hub, quick=(2, 0), thorough=(4, 0)),
+         Part('cells', prop_cells, enumerate=enum_cells, quick=(8, 0), thorough=(16, 0)),
          Part('hier', prop_hier, strategy=hier_cases, quick=(8, 400), thorough=(16, 12000))]
